@@ -45,7 +45,7 @@ theorem lexOne_minus (tl : List Char) (h : span1 E.isDigit tl = none) : lexOne E
   rw [lexOne_eq, rules, firstSome_append]
   have hl : firstSome (litRules E) ('-' :: tl) = none := by
     have hf := hf_minus
-    simp [litRules, firstSome, rLit, rNull, scanDuration_head hf.d, scanString_head, scanGeography_head hf.g,
+    simp [litRules, firstSome, rLit, rBool, rNull, scanDuration_head hf.d, scanString_head, scanGeography_head hf.g,
       scanGuid_head hf.hex, scanDateTime_head hf.digit, scanDatePart_head hf.digit, scanTime_head hf.r01 hf.ne2,
       scanWord_head hf.t, scanWord_head hf.f, scanWord_head hf.n, scanDecimal, scanInteger, h]
   rw [hl]
@@ -326,7 +326,7 @@ theorem litRules_quote (x : List Char) : firstSome (litRules E) ('\'' :: x) = rL
   have hw1 : scanWord E "true".toList ('\'' :: x) = none := scanWord_head (p := 't') (ps := ['r', 'u', 'e']) hf.t
   have hw2 : scanWord E "false".toList ('\'' :: x) = none := scanWord_head (p := 'f') (ps := ['a', 'l', 's', 'e']) hf.f
   have hw3 : scanWord E "null".toList ('\'' :: x) = none := scanWord_head (p := 'n') (ps := ['u', 'l', 'l']) hf.n
-  simp only [litRules, firstSome, rLit, rNull, scanDuration_head hf.d, scanGeography_head hf.g,
+  simp only [litRules, firstSome, rLit, rBool, rNull, scanDuration_head hf.d, scanGeography_head hf.g,
     scanGuid_head hf.hex, scanDateTime_head hf.digit, scanDatePart_head hf.digit, scanTime_head hf.r01 hf.ne2,
     scanDecimal_head (c := '\'') (by decide) (by decide) hf.digit,
     scanInteger_head (c := '\'') (by decide) (by decide) hf.digit, hw1, hw2, hw3, Option.map_none]
@@ -348,7 +348,7 @@ theorem litRules_g {c : Char} (hc : c = 'g' ∨ c = 'G') (x : List Char) :
   have hw1 : scanWord E "true".toList (c :: x) = none := scanWord_head (p := 't') (ps := ['r', 'u', 'e']) ht
   have hw2 : scanWord E "false".toList (c :: x) = none := scanWord_head (p := 'f') (ps := ['a', 'l', 's', 'e']) hf
   have hw3 : scanWord E "null".toList (c :: x) = none := scanWord_head (p := 'n') (ps := ['u', 'l', 'l']) hn
-  simp only [litRules, firstSome, rLit, rNull, scanDuration_head hd, scanString_head hq,
+  simp only [litRules, firstSome, rLit, rBool, rNull, scanDuration_head hd, scanString_head hq,
     scanGuid_head hhex, scanDateTime_head hdg, scanDatePart_head hdg, scanTime_head h01 h2,
     scanDecimal_head hp hm hdg, scanInteger_head hp hm hdg, hw1, hw2, hw3, Option.map_none]
   cases scanGeography E (c :: x) <;> rfl
@@ -446,36 +446,109 @@ theorem letter_ranges {c : Char} (h : letterNat c.toNat ∨ c.toNat = 95) :
     simp; omega
   · rintro rfl; simp [letterNat] at h
 
+theorem lexOne_nil0 : lexOne E [] = none := by decide +kernel
+
+theorem scanWord_head_inv0 {env : CharEnv} {p c : Char} {ps x : List Char} {y} (h : scanWord env (p :: ps) (c :: x) = some y) :
+    ciChar env p c = true := by
+  cases hc : ciChar env p c with
+  | true => rfl
+  | false => rw [scanWord_head hc] at h; cases h
+
+theorem t_cases {c : Char} (h : ciChar E 't' c = true) : c = 't' ∨ c = 'T' := by
+  simp [ciChar, isAsciiLower, asciiUpper, pyCharEnv, CharTables.ciExtras] at h
+  rcases h with rfl | rfl
+  · exact Or.inl rfl
+  · exact Or.inr (by decide)
+
+theorem f_cases {c : Char} (h : ciChar E 'f' c = true) : c = 'f' ∨ c = 'F' := by
+  simp [ciChar, isAsciiLower, asciiUpper, pyCharEnv, CharTables.ciExtras] at h
+  rcases h with rfl | rfl
+  · exact Or.inl rfl
+  · exact Or.inr (by decide)
+
+/-- the first character of a match of one of the two BOOLEAN rules -/
+theorem bool_head {cs : List Char} {y : Str × List Char}
+    (h : scanWord E "true".toList cs = some y ∨ scanWord E "false".toList cs = some y) :
+    ∃ c x, cs = c :: x ∧ (c = 't' ∨ c = 'T' ∨ c = 'f' ∨ c = 'F') := by
+  cases cs with
+  | nil => rcases h with h | h <;> simp [scanWord, kw] at h
+  | cons c x =>
+    refine ⟨c, x, rfl, ?_⟩
+    rcases h with h | h
+    · rcases t_cases (scanWord_head_inv0 (p := 't') (ps := ['r', 'u', 'e']) h) with e | e
+      · exact Or.inl e
+      · exact Or.inr (Or.inl e)
+    · rcases f_cases (scanWord_head_inv0 (p := 'f') (ps := ['a', 'l', 's', 'e']) h) with e | e
+      · exact Or.inr (Or.inr (Or.inl e))
+      · exact Or.inr (Or.inr (Or.inr e))
+
+theorem bool_not_clash {cs : List Char} {y : Str × List Char}
+    (h : scanWord E "true".toList cs = some y ∨ scanWord E "false".toList cs = some y) : scanNot E cs = none := by
+  obtain ⟨c, x, rfl, hc⟩ := bool_head h
+  apply scanNot_head
+  rcases hc with rfl | rfl | rfl | rfl <;> decide +kernel
+
+theorem boolOrIdent_cases (v : Str) : boolOrIdent v = .lit .bool v ∨ boolOrIdent v = .ident ⟨v, []⟩ := by
+  unfold boolOrIdent; split
+  · exact Or.inl rfl
+  · exact Or.inr rfl
+
+theorem boolOrIdent_ne_ws (v : Str) : boolOrIdent v ≠ .ws := by
+  rcases boolOrIdent_cases v with h | h <;> rw [h] <;> simp
+
+/-- the first character of an identifier token is a letter or `_` — whichever rule produced it -/
+theorem src_ident_letter {c : Char} {s0 r : List Char} {i : Ident} (h : Src E (c :: s0) r (.ident i)) :
+    letterNat c.toNat ∨ c.toNat = 95 := by
+  rcases h with h | ⟨-, h⟩
+  · simp only [scanIdent] at h
+    split at h
+    · rename_i hc; exact isIdentStart_imp c hc
+    · simp at h
+  · obtain ⟨c', x, e, hc⟩ := bool_head h
+    simp only [List.cons.injEq] at e
+    obtain ⟨rfl, rfl⟩ := e
+    rcases hc with rfl | rfl | rfl | rfl <;> (left; simp [letterNat])
+
+/-- the text of an identifier token does not start like a geography literal -/
+theorem src_ident_geo {c : Char} {s0 : List Char} {i : Ident} (h : Src E (c :: s0) [] (.ident i)) :
+    kw E "geography'".toList (c :: s0) = none := by
+  rcases h with hsrc | ⟨-, h⟩
+  · obtain ⟨hstart, htail⟩ := scanIdent_inv hsrc
+    have hq := (letter_imp c (isIdentStart_imp c hstart)).2.2.1
+    cases hk : kw E "geography'".toList (c :: s0) with
+    | none => rfl
+    | some y =>
+      obtain ⟨x, hx, hxq⟩ := kw_mem _ _ y.1 y.2 hk '\'' (by decide)
+      have hxe : x = '\'' := by simpa [ciChar, isAsciiLower] using hxq
+      subst hxe
+      rcases List.mem_cons.1 hx with hx | hx
+      · exact absurd hx.symm hq
+      · rcases htail _ hx with hw | hw
+        · exact absurd hw (by decide +kernel)
+        · exact absurd hw (by decide)
+  · obtain ⟨c', x, e, hc⟩ := bool_head h
+    simp only [List.cons.injEq] at e
+    obtain ⟨rfl, rfl⟩ := e
+    apply kw_head (p := 'g')
+    rcases hc with rfl | rfl | rfl | rfl <;> decide +kernel
+
 theorem lexOne_ext_ident {s : List Char} {i : Ident} {d : Char} (rest : List Char)
     (h : lexOne E s = some (.ident i, [])) (hd : isDelim d = true)
     (hnot : d = ' ' → scanNot E (s ++ ' ' :: rest) = none) :
     lexOne E (s ++ d :: rest) = some (.ident i, d :: rest) := by
   have hD := delim_of hd
-  have hsrc : scanIdent E s = some (i, []) := lexOne_src h
+  have hsrc : Src E s [] (.ident i) := lexOne_src h
   cases s with
-  | nil => simp [scanIdent] at hsrc
+  | nil => rw [lexOne_nil0] at h; cases h
   | cons c s0 =>
-    obtain ⟨hstart, htail⟩ := scanIdent_inv hsrc
-    have hl := isIdentStart_imp c hstart
+    have hl := src_ident_letter hsrc
     obtain ⟨hdg, hsp, hq, hp, hm⟩ := letter_imp c hl
-    have hg : kw E "geography'".toList (c :: s0) = none := by
-      cases hk : kw E "geography'".toList (c :: s0) with
-      | none => rfl
-      | some y =>
-        obtain ⟨x, hx, hxq⟩ := kw_mem _ _ y.1 y.2 hk '\'' (by decide)
-        have hxe : x = '\'' := by simpa [ciChar, isAsciiLower] using hxq
-        subst hxe
-        rcases List.mem_cons.1 hx with hx | hx
-        · exact absurd hx.symm hq
-        · rcases htail _ hx with hw | hw
-          · exact absurd hw (by decide +kernel)
-          · exact absurd hw (by decide)
+    have hg := src_ident_geo hsrc
     refine lexOne_ext_other word_dot hD (delim_identStart hd) (Or.inr (letter_ranges hl)) hq hg hsp ?_ (by simp) h
     intro hn
     by_cases hds : d = ' '
     · subst hds; exact hnot rfl
     · rw [scanNot_ext hD (delim_space hd hds), hn]; rfl
-
 
 theorem lexOne_any (tl : List Char) : lexOne E ('a' :: 'n' :: 'y' :: '(' :: tl) = some (.any, '(' :: tl) := by
   have h0 : lexOne E ['a', 'n', 'y'] = some (.any, []) := by decide +kernel
@@ -491,14 +564,21 @@ theorem lexOne_all (tl : List Char) : lexOne E ('a' :: 'l' :: 'l' :: '(' :: tl) 
     (Or.inl (by decide)) (by decide) (kw_head (p := 'g') (by decide +kernel)) (by decide +kernel)
     (fun hn => by rw [scanNot_ext hD (by decide +kernel), hn]; rfl) (by simp) h0
 
-theorem lexOne_ident_scanNot {env : CharEnv} {cs r : List Char} {i : Ident} (h : lexOne env cs = some (.ident i, r)) :
-    scanNot env cs = none := by
-  cases hn : scanNot env cs with
+theorem lexOne_ident_scanNot {cs r : List Char} {i : Ident} (h : lexOne E cs = some (.ident i, r)) :
+    scanNot E cs = none := by
+  cases hn : scanNot E cs with
   | none => rfl
   | some r' =>
     exfalso
     unfold lexOne at h
-    iterate 20 (split at h; · simp at h)
+    iterate 9 (split at h; · simp at h)
+    split at h
+    · rename_i v r1 heq
+      rw [bool_not_clash (Or.inl heq)] at hn; cases hn
+    split at h
+    · rename_i v r1 heq
+      rw [bool_not_clash (Or.inr heq)] at hn; cases hn
+    iterate 9 (split at h; · simp at h)
     split at h
     · simp at h
     · rename_i hne; exact hne _ hn
@@ -508,97 +588,97 @@ theorem lexOne_ws_ops {env : CharEnv} {cs r : List Char} (h : lexOne env cs = so
     ∀ e ∈ allOps, scanOp env e.2 cs = none := by
   unfold lexOne at h
   split at h
-  · simp at h
+  · simp at h <;> exact absurd h.1 (boolOrIdent_ne_ws _)
   rename_i h1
   split at h
-  · simp at h
+  · simp at h <;> exact absurd h.1 (boolOrIdent_ne_ws _)
   rename_i h2
   split at h
-  · simp at h
+  · simp at h <;> exact absurd h.1 (boolOrIdent_ne_ws _)
   rename_i h3
   split at h
-  · simp at h
+  · simp at h <;> exact absurd h.1 (boolOrIdent_ne_ws _)
   rename_i h4
   split at h
-  · simp at h
+  · simp at h <;> exact absurd h.1 (boolOrIdent_ne_ws _)
   rename_i h5
   split at h
-  · simp at h
+  · simp at h <;> exact absurd h.1 (boolOrIdent_ne_ws _)
   rename_i h6
   split at h
-  · simp at h
+  · simp at h <;> exact absurd h.1 (boolOrIdent_ne_ws _)
   rename_i h7
   split at h
-  · simp at h
+  · simp at h <;> exact absurd h.1 (boolOrIdent_ne_ws _)
   rename_i h8
   split at h
-  · simp at h
+  · simp at h <;> exact absurd h.1 (boolOrIdent_ne_ws _)
   rename_i h9
   split at h
-  · simp at h
+  · simp at h <;> exact absurd h.1 (boolOrIdent_ne_ws _)
   rename_i h10
   split at h
-  · simp at h
+  · simp at h <;> exact absurd h.1 (boolOrIdent_ne_ws _)
   rename_i h11
   split at h
-  · simp at h
+  · simp at h <;> exact absurd h.1 (boolOrIdent_ne_ws _)
   rename_i h12
   split at h
-  · simp at h
+  · simp at h <;> exact absurd h.1 (boolOrIdent_ne_ws _)
   rename_i h13
   split at h
-  · simp at h
+  · simp at h <;> exact absurd h.1 (boolOrIdent_ne_ws _)
   rename_i h14
   split at h
-  · simp at h
+  · simp at h <;> exact absurd h.1 (boolOrIdent_ne_ws _)
   rename_i h15
   split at h
-  · simp at h
+  · simp at h <;> exact absurd h.1 (boolOrIdent_ne_ws _)
   rename_i h16
   split at h
-  · simp at h
+  · simp at h <;> exact absurd h.1 (boolOrIdent_ne_ws _)
   rename_i h17
   split at h
-  · simp at h
+  · simp at h <;> exact absurd h.1 (boolOrIdent_ne_ws _)
   rename_i h18
   split at h
-  · simp at h
+  · simp at h <;> exact absurd h.1 (boolOrIdent_ne_ws _)
   rename_i h19
   split at h
-  · simp at h
+  · simp at h <;> exact absurd h.1 (boolOrIdent_ne_ws _)
   rename_i h20
   split at h
-  · simp at h
+  · simp at h <;> exact absurd h.1 (boolOrIdent_ne_ws _)
   rename_i h21
   split at h
-  · simp at h
+  · simp at h <;> exact absurd h.1 (boolOrIdent_ne_ws _)
   rename_i h22
   split at h
-  · simp at h
+  · simp at h <;> exact absurd h.1 (boolOrIdent_ne_ws _)
   rename_i h23
   split at h
-  · simp at h
+  · simp at h <;> exact absurd h.1 (boolOrIdent_ne_ws _)
   rename_i h24
   split at h
-  · simp at h
+  · simp at h <;> exact absurd h.1 (boolOrIdent_ne_ws _)
   rename_i h25
   split at h
-  · simp at h
+  · simp at h <;> exact absurd h.1 (boolOrIdent_ne_ws _)
   rename_i h26
   split at h
-  · simp at h
+  · simp at h <;> exact absurd h.1 (boolOrIdent_ne_ws _)
   rename_i h27
   split at h
-  · simp at h
+  · simp at h <;> exact absurd h.1 (boolOrIdent_ne_ws _)
   rename_i h28
   split at h
-  · simp at h
+  · simp at h <;> exact absurd h.1 (boolOrIdent_ne_ws _)
   rename_i h29
   split at h
-  · simp at h
+  · simp at h <;> exact absurd h.1 (boolOrIdent_ne_ws _)
   rename_i h30
   split at h
-  · simp at h
+  · simp at h <;> exact absurd h.1 (boolOrIdent_ne_ws _)
   rename_i h31
   intro e he
   simp only [allOps, ops1, ops2, ops3, List.cons_append, List.nil_append, List.mem_cons, List.not_mem_nil, or_false] at he
